@@ -10,7 +10,8 @@ violation log (strict command decoder + command legality) must stay empty.
 from simkit import gen
 from simkit.core import Failure
 from simkit.chooser import hash64
-from simkit.mserver import ServerConfig
+from simkit.mserver import (ServerConfig, F_SILENT, F_CLOSE, F_LOST_SILENT, F_LOST_CLOSE, F_TRUNC, F_RESET, F_LOST_RESET,
+                            F_TRUNC_SILENT, F_TRUNC_RESET)
 from simkit.world import World
 from simkit.tracefmt import render_events
 
@@ -19,7 +20,8 @@ LEVEL = "exploration"
 BUDGET = {"quick": 150, "thorough": 900}
 RULE = ("Sessions of 5-40 operations by 1-3 clients over a pool of 5 names, unique script bodies, quotas small enough that "
         "QUOTA/*, NONEXISTENT, ACTIVE and ALREADYEXISTS refusals occur, reply encodings (quoted/literal), listing order, "
-        "recv segmentation and forced NO drawn; with several clients one may be told BYE and is retired; every session ends "
+        "recv segmentation and forced NO drawn; one operation in twelve loses its connection (reply lost, cut at a drawn byte or "
+        "never sent; connection closed, reset or silent) and the same object reconnects; with several clients one may be told BYE and is retired; every session ends "
         "with a fresh Client object that must connect and list correctly. Every result is compared with the server's state "
         "at that moment. Non-trivial: the session contained at least one refusal or one literal-encoded value. Distinct = "
         "(number of clients, sorted set of (operation, outcome class) pairs seen).")
@@ -27,6 +29,8 @@ COMPONENTS = {"real": ["sievelib.managesieve.Client"],
               "stub": ["socket/ssl modules (simkit.net)", "ManageSieve server (simkit.mserver)"]}
 ASSUMPTIONS = ["operations of different clients do not overlap (the client is synchronous), so no linearizability search is needed",
                "names and bodies need no escaping (hostile values are C08's / C17's)"]
+
+CRASHES = [F_TRUNC, F_CLOSE, F_LOST_CLOSE, F_RESET, F_LOST_RESET, F_TRUNC_RESET, F_SILENT, F_LOST_SILENT, F_TRUNC_SILENT]
 
 OPS = ["listscripts", "putscript", "getscript", "deletescript", "setactive", "renamescript", "havespace",
        "checkscript", "capability", "putscript", "getscript", "listscripts", "badreconnect", "reconnect"]
@@ -63,6 +67,12 @@ def run(ch, config, res):
         conn_version[conn.id] = v
         return v
     srv.version_hook = version_hook
+    crash = [None]
+
+    def fault_hook(conn, dec, scope):
+        k, crash[0] = crash[0], None
+        return k
+    srv.fault_hook = fault_hook
     srv.text_lit_variation = True
     # in a third of the sessions status replies take every RFC 5804 shape (codes, multi-line literal texts with
     # look-alike lines): their content is C09's business, a reply left half-read is a desynchronisation = ours
@@ -161,8 +171,27 @@ def run(ch, config, res):
                         srv.fault_weights = [1, 0, 0, 0, 0, 0, 0, 0]
                 elif op == "havespace":
                     args = (gen.name(wl, "name"), [10, 100, 125, 250][wl.int("size", 4)])
+                # a crash of the connection inside this operation: the reply is lost, cut at a drawn byte, or never comes, and
+                # the connection is closed / reset / left silent.  What the call itself reports is not constrained (the
+                # command may or may not have been applied - the server's state is still known); afterwards the same object
+                # connects again and everything must be in step and correct.
+                crashed = False
+                if not (op == "renamescript") and wl.flag("crash", 1, 12):
+                    crash[0] = CRASHES[wl.int("crashkind", len(CRASHES))]
+                    crashed = True
                 before = srv.snapshot()
                 o = world.call(client, op, *args)
+                crash[0] = None
+                if crashed:
+                    check_violations("op %d client %d %s%r (connection crashed)" % (i, ci, op, args))
+                    kinds.add((op, "crash"))
+                    if o.kind == "hang":
+                        fail("C15.mismatch", "op %d %s%r never returned after the connection was lost" % (i, op, args))
+                        break
+                    srv.fault_weights = [1, 0, 0, 0, 0, 0, 0, 0]
+                    with ch.scope("recover"):
+                        connect(client, "op %d reconnect after a lost connection" % i)
+                    continue
             recs = [r for r in srv.log if r.call_id == o.call_id]
             label = "op %d client %d %s%r" % (i, ci, op, args)
             check_violations(label)
